@@ -2,3 +2,4 @@ pub mod c19;
 pub mod hist;
 pub mod c17;
 pub mod c09e;
+pub mod c20;
